@@ -39,7 +39,8 @@ def vendors(tier):
 
 def bound_text(tier):
     return ("rulebook families %s; vendors %s; all ordered pairs (old,new) of the complete config universe per rulebook "
-            "(<= %d configs); rendering round trip through %s formatter(s)"
+            "(<= %d configs); rendering round trip through %s formatter(s); E: 192 corpus samples x {--acl-safe} through "
+            "annet.diff.worker end to end"
             % ([f for f, _ in all_families(tier)], vendors(tier), knobs(tier)["cap"],
                "3" if tier == "quick" else "all 14"))
 
